@@ -6,7 +6,7 @@ scope from the thunk's creation on: not rebound after the creation point, and no
 encloses the creation."""
 import ast
 
-from ..engine.loader import FUNC_TYPES, norm_text, walk_local
+from ..engine.loader import FUNC_TYPES, norm_text, walk_local, public_qual
 
 
 def _params(fn):
@@ -218,3 +218,124 @@ def rule_G1(ck, rule_name="G1"):
             names = ", ".join(f"'{n}' of {s.split('::')[1]} ({why})" for n, s, why in r["bad"])
             ck.violation(r["thunk"], f"a lazily evaluated thunk reads {names}: when it finally runs it sees the value left by statements compiled after it, not the value at its own statement",
                          construct="thunk captures " + ",".join(sorted({n for n, _, _ in r["bad"]})))
+    rule_G1_state(ck)
+
+
+# ---------------------------------------------------------------------------------------------------------------
+# G1 (second half): the per-statement state mapping is captured by thunks, so it is never updated in place
+STATE_MODULES = ("compiler", "insns", "metacommands", "metacommand_impl", "operators", "types", "builtins")
+MUTATORS = ("update", "pop", "setdefault", "clear", "popitem", "__setitem__", "__delitem__")
+STATE_EXCEPTIONS = {
+    ("metacommands::extern", "extern_all"): "'.extern all' is a per-file switch read eagerly by the statements that follow it (compile_label / compile_assignment), "
+                                            "never from a thunk: updating the file's own state is its purpose",
+}
+
+
+def _is_state_name(name):
+    return name == "state" or name.endswith("_state") or name.startswith("state_")
+
+
+def _derives_from_state(value, known):
+    """dict(state) / state.copy() / {**state, ...} / dict(state, k=v): a (shallow) copy of a state mapping"""
+    if isinstance(value, ast.Call):
+        f = value.func
+        if isinstance(f, ast.Name) and f.id == "dict" and value.args and isinstance(value.args[0], ast.Name) and value.args[0].id in known:
+            return True
+        if isinstance(f, ast.Attribute) and f.attr == "copy" and isinstance(f.value, ast.Name) and f.value.id in known:
+            return True
+    if isinstance(value, ast.Dict):
+        return any(k is None and isinstance(v, ast.Name) and v.id in known for k, v in zip(value.keys, value.values))
+    return False
+
+
+def state_mutations(repo):
+    """-> (functions looked at, [(qual, node, name, key text)])"""
+    looked, out = 0, []
+    for q, fn in repo.all_functions():
+        if q.split("::")[0] not in STATE_MODULES:
+            continue
+        known = {p for p in _params(fn) if _is_state_name(p)}
+        # free 'state' of nested functions belongs to the enclosing function's mapping too
+        known |= {n for n in free_names(fn) if _is_state_name(n)}
+        own = {}      # locally created copies: name -> [assignments]
+        changed = True
+        while changed:
+            changed = False
+            for n in walk_local(fn):
+                if isinstance(n, ast.Assign) and len(n.targets) == 1 and isinstance(n.targets[0], ast.Name) \
+                        and (_derives_from_state(n.value, known) or (isinstance(n.value, ast.Name) and n.value.id in known)):
+                    nm = n.targets[0].id
+                    if nm not in known:
+                        known.add(nm)
+                        changed = True
+                    if _derives_from_state(n.value, known) and n not in own.setdefault(nm, []):
+                        own[nm].append(n)
+        if not known:
+            continue
+        looked += 1
+        for n in walk_local(fn):
+            tgt = None
+            if isinstance(n, (ast.Assign, ast.AugAssign, ast.AnnAssign, ast.Delete)):
+                targets = n.targets if isinstance(n, (ast.Assign, ast.Delete)) else [n.target]
+                for t in targets:
+                    for tt in (t.elts if isinstance(t, (ast.Tuple, ast.List)) else [t]):
+                        if isinstance(tt, ast.Subscript) and isinstance(tt.value, ast.Name) and tt.value.id in known:
+                            tgt = (tt.value.id, norm_text(tt.slice))
+            elif isinstance(n, ast.Call) and isinstance(n.func, ast.Attribute) and n.func.attr in MUTATORS and isinstance(n.func.value, ast.Name) and n.func.value.id in known:
+                tgt = (n.func.value.id, n.func.attr + "()")
+            if tgt and not _fresh_fill(fn, tgt[0], n, own):
+                out.append((q, n, tgt[0], tgt[1]))
+    return looked, out
+
+
+def _innermost_loop(node, fn):
+    p = getattr(node, "_parent", None)
+    while p is not None and p is not fn:
+        if isinstance(p, (ast.For, ast.While)):
+            return p
+        p = getattr(p, "_parent", None)
+    return None
+
+
+def _fresh_fill(fn, name, mutation, own):
+    """the mapping was copied in this function, in the same loop iteration, and has not been handed to anyone between the copy and this update"""
+    creations = own.get(name)
+    if not creations:
+        return False          # a parameter / captured mapping: somebody else holds it
+    before = [c for c in creations if position(c) < position(mutation)]
+    if not before or _innermost_loop(before[-1], fn) is not _innermost_loop(mutation, fn):
+        return False
+    start, end = position(before[-1]), position(mutation)
+    for n in ast.walk(fn):
+        if isinstance(n, ast.Name) and n.id == name and isinstance(n.ctx, ast.Load) and start < position(n) < end:
+            par = n._parent
+            if isinstance(par, ast.Subscript) and par.value is n:
+                continue      # reading or writing one of its own keys
+            if mutation in _ancestors(n):
+                continue
+            return False      # passed on, captured or aliased before this update
+    return True
+
+
+def _ancestors(n):
+    out = []
+    p = getattr(n, "_parent", None)
+    while p is not None:
+        out.append(p)
+        p = getattr(p, "_parent", None)
+    return out
+
+
+def rule_G1_state(ck):
+    looked, muts = state_mutations(ck.repo)
+    ck.instance("state-holders", {"functions holding a state mapping": looked, "in-place updates found": len(muts)})
+    for q, n, name, key in muts:
+        why = STATE_EXCEPTIONS.get((public_qual(q), key.strip("'\"")))
+        ck.instance(("state-update", q, name, key), {"function": q, "update": norm_text(n)[:80], "verdict": "exception: " + why if why else "in-place update"}, fn=q)
+        if why:
+            continue
+        ck.violation(n, f"the state mapping '{name}' is updated in place ({norm_text(n)[:60]}): lazily evaluated thunks created earlier hold a reference to this mapping and read it when they finally run "
+                        "(state['rel_address'], state['emit_address'], ...), so they see the value written for a LATER operand or statement; every statement and operand gets its own copy "
+                        "({**state, key: value})", construct=f"in-place update of {name}[{key}]")
+    if looked < 20:
+        ck.unknown(f"only {looked} functions holding a state mapping were found (over 40 confirmed by hand)")
